@@ -247,6 +247,7 @@ impl Ctx {
 
 thread_local! {
     static LAST_PANIC: RefCell<Option<String>> = RefCell::new(None);
+    static GUARD_DEPTH: std::cell::Cell<u32> = std::cell::Cell::new(0);
 }
 
 pub fn install_panic_hook() {
@@ -264,13 +265,20 @@ pub fn install_panic_hook() {
         };
         let mut m: String = msg.chars().take(200).collect();
         m = m.replace('\n', " ");
+        if GUARD_DEPTH.with(|d| d.get()) == 0 {
+            // a panic outside any guarded region is a harness bug: make it visible
+            eprintln!("UNGUARDED panic at {}: {}", loc, m);
+        }
         LAST_PANIC.with(|p| *p.borrow_mut() = Some(format!("panic at {}: {}", loc, m)));
     }));
 }
 
 /// Run `f`, turning a panic into `Err(signature)`.
 pub fn guarded<T>(f: impl FnOnce() -> T) -> Result<T, String> {
-    match panic::catch_unwind(AssertUnwindSafe(f)) {
+    GUARD_DEPTH.with(|d| d.set(d.get() + 1));
+    let r = panic::catch_unwind(AssertUnwindSafe(f));
+    GUARD_DEPTH.with(|d| d.set(d.get().saturating_sub(1)));
+    match r {
         Ok(v) => Ok(v),
         Err(_) => Err(LAST_PANIC
             .with(|p| p.borrow_mut().take())
